@@ -391,8 +391,8 @@ func execC23(c *simkit.Ctx) bool {
 	if nAcc < 1 {
 		nAcc = 1
 	}
-	if nAcc > 8 {
-		nAcc = 8
+	if nAcc > 4 {
+		nAcc = 4
 	}
 	addrMode := p.Knob("addrMode", 0)
 	for i := 0; i < nAcc; i++ {
@@ -428,7 +428,7 @@ func execC23(c *simkit.Ctx) bool {
 			w.users[st.T].bal.Add(w.users[st.T].bal, v)
 			w.users[st.T].exists = true
 		case "fill":
-			if st.T < 0 || st.T > 15 {
+			if st.T < 0 || st.T > 11 {
 				continue
 			}
 			v := parseAmount(st.Str(0))
